@@ -147,13 +147,26 @@ def run(ctx):
     # ---- search: meaning of the real output vs meaning of the input ------------------------------------
     second = ctx.run_go('merge', [o[3:] if o.startswith('ok\t') else '' for o in go])
     ctx.cov['evaluations'] += len(second)
+    # the domain of the meaning theorem, evaluated by the Lean predicate itself (Aa.Dom10, decidable) on every rule
+    dom = ctx.run_lean('dom10', ops)
+    ctx.cov['evaluations'] += len(ops)
     nj = nfail = nidem = 0
+    ndom = ndom_mismatch = 0
     classes = {}
     for i, l in enumerate(lists):
         if not go[i].startswith('ok'):
             ctx.violation('Rules.Merge panicked', {'op': ops[i], 'go': go[i]})
             continue
         kc = known_class(g, l)
+        in_dom = dom[i].startswith('ok') and all(x in ('1', 'n') for x in dom[i][3:].split(';') if x)
+        if in_dom:
+            ndom += 1
+            if kc:
+                # the check's own filter sets aside a list the theorem covers: the filter is wrong, not the code
+                ndom_mismatch += 1
+                if ndom_mismatch <= 2:
+                    broken.append('the known-class filter of the search (%s) sets aside a list that lies in the domain of C10_den_preserved_partial: %s' % (kc, ops[i][:200]))
+                kc = None
         if kc:
             classes[kc] = classes.get(kc, 0) + 1
             continue
@@ -172,7 +185,8 @@ def run(ctx):
                 ctx.violation('merging an already merged list changes it', {'op': ops[i], 'once': go[i], 'twice': second[i]})
     ctx.count_distinct([ops[i] for i, l in enumerate(lists) if not known_class(g, l)])
     ctx.cov['search']['meaning'] = {'lists': len(lists), 'judged': nj, 'meaning_changed': nfail, 'not_idempotent': nidem,
-                                    'skipped_known_classes': classes}
+                                    'skipped_known_classes': classes, 'lists_in_the_domain_of_the_theorem': ndom,
+                                    'judged_outside_the_domain_of_the_theorem': nj - ndom, 'filter_vs_domain_mismatches': ndom_mismatch}
     ctx.sample({'input': ops[1], 'real_output': go[1]})
 
     # ---- known findings: witnesses on the real code -----------------------------------------------------
